@@ -200,8 +200,36 @@ func (op *pipelineOp) exec(fm *Frame) Exception {
 }
 
 func isReaderGone(exc Exception) bool {
-	_, ok := exc.Reason().(errs.ReaderGone)
-	return ok
+	return isReaderGoneError(exc.Reason())
+}
+
+// Reports whether err consists of nothing but reader gone errors. Commands
+// that run several callbacks (peach, run-parallel) combine the errors of the
+// callbacks; when all of them merely noticed that the reader is gone, so has
+// the command.
+func isReaderGoneError(err error) bool {
+	switch err := err.(type) {
+	case errs.ReaderGone:
+		return true
+	case Exception:
+		return isReaderGoneError(err.Reason())
+	case PipelineError:
+		for _, exc := range err.Errors {
+			if exc != nil && !isReaderGoneError(exc) {
+				return false
+			}
+		}
+		return len(err.Errors) > 0
+	case interface{ Unwrap() []error }:
+		parts := err.Unwrap()
+		for _, part := range parts {
+			if !isReaderGoneError(part) {
+				return false
+			}
+		}
+		return len(parts) > 0
+	}
+	return false
 }
 
 type formOp struct {
